@@ -47,6 +47,7 @@ type gctx struct {
 	sc   sched
 	vars map[*ast.SExpr]int // placeholder -> creation index
 	n    int
+	memo map[int]gomini.Goal // shared closed sub-goals, built once (G.Share)
 }
 
 func (c *gctx) reg(v *ast.SExpr) {
@@ -80,6 +81,28 @@ func (c *gctx) perturb(g gomini.Goal) gomini.Goal {
 
 // buildGo constructs the real gomini goal. env[0] is the most recently bound variable.
 func (c *gctx) buildGo(g *G, env []*ast.SExpr) gomini.Goal {
+	if g.Share > 0 {
+		c.mu.Lock()
+		m, ok := c.memo[g.Share]
+		c.mu.Unlock()
+		if ok {
+			return m
+		}
+		cp := *g
+		cp.Share = 0
+		built := c.buildGo(&cp, nil)
+		c.mu.Lock()
+		if c.memo == nil {
+			c.memo = map[int]gomini.Goal{}
+		}
+		if m, ok := c.memo[g.Share]; ok {
+			built = m
+		} else {
+			c.memo[g.Share] = built
+		}
+		c.mu.Unlock()
+		return built
+	}
 	switch g.K {
 	case "fail":
 		return gomini.FailureO
@@ -265,6 +288,13 @@ func multiset6(xs []string) string {
 	return strings.Join(ys, " ")
 }
 
+// coin6 is a closed two-answer goal, shared under the given id: exists c. (c == 0 or c == 1)
+func coin6(id int) *G {
+	g := gFresh(gDisj(gEq(ptB(0), ptAtom(ast.NewInt(0))), gEq(ptB(0), ptAtom(ast.NewInt(1)))))
+	g.Share = id
+	return g
+}
+
 func c06Programs(cfg *Config) []*G {
 	r := newRand(cfg.Seed)
 	// finite relations only in the generated part; the infinite ones are used by the directed shapes
@@ -283,6 +313,15 @@ func c06Programs(cfg *Config) []*G {
 		gIfte(gDisj(gEq(ptB(0), ptAtom(ast.NewInt(1))), gEq(ptB(0), ptAtom(ast.NewInt(2)))), gSucc(), gEq(ptB(0), ptAtom(ast.NewInt(3)))),
 		gIfte(gFail(), gSucc(), gEq(ptB(0), ptAtom(ast.NewInt(3)))),
 		gFresh(gFresh(gConj(gEq(ptB(1), ptB(0)), gConj(gEq(ptB(1), ptAtom(ast.NewSymbol("a"))), gConj(gEq(ptB(0), ptAtom(ast.NewSymbol("b"))), gEq(ptB(2), ptList(ptB(1), ptB(0)))))))),
+		// one goal VALUE entered several times along one branch (coin = exists c. c = 0 or c = 1): 2*2, 2*2*2 and 2*2 answers
+		gConjPlus(false, coin6(1), coin6(1), gEq(ptB(0), ptAtom(ast.NewInt(7)))),
+		gConj(coin6(1), gFresh(gConjPlus(false, gEq(ptB(0), ptB(1)), coin6(1), gDisj(gFail(), gConj(coin6(1), gEq(ptB(0), ptAtom(ast.NewInt(7)))))))),
+		gConj(gEq(ptB(0), ptAtom(ast.NewInt(7))), gIfte(coin6(1), coin6(1), gFail())),
+		gDisj(gConj(coin6(1), gEq(ptB(0), ptAtom(ast.NewInt(1)))), gConj(coin6(1), gEq(ptB(0), ptAtom(ast.NewInt(2))))),
+		// generate and test over an infinite middle conjunct: whichever candidate is tried first, the other one is still tried
+		gConjPlus(false, gDisj(gEq(ptB(0), ptAtom(ast.NewInt(1))), gEq(ptB(0), ptAtom(ast.NewInt(2)))), gCall(1), gEq(ptB(0), ptAtom(ast.NewInt(2)))),
+		gConjPlus(false, gDisj(gEq(ptB(0), ptAtom(ast.NewInt(1))), gEq(ptB(0), ptAtom(ast.NewInt(2)))), gCall(1), gEq(ptB(0), ptAtom(ast.NewInt(1)))),
+		gFresh(gConjPlus(false, gDisjPlus(false, gEq(ptB(0), ptAtom(ast.NewInt(1))), gEq(ptB(0), ptAtom(ast.NewInt(2))), gEq(ptB(0), ptAtom(ast.NewInt(3)))), gCall(2, ptB(1)), gEq(ptB(0), ptAtom(ast.NewInt(3))))),
 		// infinite / silent
 		gCall(2, ptB(0)),
 		gDisj(gCall(2, ptB(0)), gCall(3, ptB(0))),
@@ -299,7 +338,18 @@ func c06Programs(cfg *Config) []*G {
 			n := r.Intn(5)
 			out = append(out, gConjPlus(false, pg.goals(n, 1+r.Intn(3), 1)...))
 		default:
-			out = append(out, pg.goal(2+r.Intn(9), 1))
+			g := pg.goal(2+r.Intn(9), 1)
+			if r.Intn(4) == 0 {
+				// the same closed goal value before and after the program (and inside a disjunct of it)
+				id := 100 + len(out)
+				sh := func() *G {
+					s := gFresh(gCall(10, ptB(0), ptList(ptAtom(ast.NewSymbol("a")), ptAtom(ast.NewSymbol("b")))))
+					s.Share = id
+					return s
+				}
+				g = gConjPlus(false, sh(), gDisj(g, gConj(sh(), g)), sh())
+			}
+			out = append(out, g)
 		}
 	}
 	return out[:cfg.N]
